@@ -24,6 +24,7 @@
 //!       sst <path>                    one sst: final-block setsum, recomputed setsum, entries
 //!       verify <dir> <passes> [opts]  LsmVerifier::open + verify() `passes` times
 //!       build <path> <k:ts:v>...      SstBuilder over the given entries; prints the setsum
+//!       mklog <path> <k:ts:v>...      a write-ahead log holding the entries (sst::LogBuilder)
 //!       logsum <path> <batches>       sst::log: WriteBatches (entries k:ts:vlen, ',' inside a batch,
 //!                                     ';' between batches; a value is vlen bytes of ts%251) appended
 //!                                     to a LogBuilder; prints the setsum seal() returns, the setsum
@@ -299,6 +300,27 @@ fn tool() {
                 match res {
                     Ok(s) => writeln!(buf, "BUILT {s}").unwrap(),
                     Err(e) => writeln!(buf, "BUILT err {}", err_class(&e)).unwrap(),
+                }
+            }
+            "mklog" => {
+                // a write-ahead log as the store writes it (sst::LogBuilder), e.g. the log of a new
+                // memtable that took writes while the old one was being flushed
+                let ents = parse_entries(&t[2..]);
+                let _ = std::fs::remove_file(t[1]);
+                let res = (|| -> Result<(), lsmtk::SError> {
+                    let mut lb = sst::log::LogBuilder::new(sst::log::LogOptions::default(), t[1])?;
+                    for (k, ts, v) in ents.iter() {
+                        match v {
+                            Some(v) => lb.put(k, *ts, v)?,
+                            None => lb.del(k, *ts)?,
+                        }
+                    }
+                    lb.seal()?;
+                    Ok(())
+                })();
+                match res {
+                    Ok(()) => writeln!(buf, "MKLOG ok").unwrap(),
+                    Err(e) => writeln!(buf, "MKLOG err {}", err_class(&e)).unwrap(),
                 }
             }
             "logsum" => {
